@@ -54,7 +54,7 @@ def _apply(m, tree):
     overlay = {}
     for rel, old, new, count in m.edits:
         src = overlay.get(rel, tree.get(rel))
-        if src is None or src.count(old) != count:
+        if src is None or (src.count(old) != count if count else src.count(old) == 0):
             return None
         overlay[rel] = src.replace(old, new)
     for rel, src in overlay.items():
